@@ -30,6 +30,7 @@ pub struct Delta {
 pub struct Melda {}
 #[verifier::external_body]
 pub struct VxError { e: () }
+// (needed by `Result::unwrap` in the extracted code; never executed)
 #[verifier::external] impl std::fmt::Debug for VxError { fn fmt(&self, _f: &mut std::fmt::Formatter<'_>) -> std::fmt::Result { unimplemented!() } }
 // ASSUMED: anyhow error values carry no information the contracts depend on
 #[verifier::external_body]
@@ -443,4 +444,176 @@ pub proof fn lemma_expected_index(ps: Set<DeltaId>, e: u32)
     let a = choose|a: DeltaId| ps.contains(a) && a.0 + 1 == e;
     assert(has_view(ps, a@));
     assert(f(a@) && a@.0 + 1 == e);
+}
+/// the index rule determines the index
+pub proof fn lemma_index_rule_unique(e1: u32, e2: u32, f: spec_fn(DidV) -> bool)
+    requires index_rule(e1, f), index_rule(e2, f),
+    ensures e1 == e2,
+{
+    if exists|v: DidV| #[trigger] f(v) {
+        let v1 = choose|v: DidV| #[trigger] f(v) && v.0 + 1 == e1;
+        let v2 = choose|v: DidV| #[trigger] f(v) && v.0 + 1 == e2;
+        assert(v1.0 < e2 && v2.0 < e1);
+    }
+}
+pub proof fn lemma_index_rule_ext(e: u32, f: spec_fn(DidV) -> bool, g: spec_fn(DidV) -> bool)
+    requires index_rule(e, f), forall|v: DidV| #![trigger f(v)] #![trigger g(v)] f(v) <==> g(v),
+    ensures index_rule(e, g),
+{
+    assert(f =~= g);
+}
+/// `t` is the JSON text of (one of the enumeration orders of) block `d`'s object
+pub open spec fn is_block_text(d: Delta, t: Seq<char>) -> bool {
+    exists|o: Map<Seq<char>, JV>| #[trigger] is_block_json(d, o) && t == json_text(JV::Obj(o))
+}
+
+// ================================================================ write-then-read (C03/C13 completeness: the defect class of D2)
+/// a change record as the system builds it: a creation record names a first revision, an update record names the child
+/// (index + 1) of a system-produced previous revision
+pub open spec fn wf_change(c: ChangeV) -> bool {
+    match c.2 {
+        None => c.1 == child_of(1, c.1.1, None),
+        Some(p) => rev_sys(p) && p.0 < u32::MAX && c.1 == child_of((p.0 + 1) as u32, c.1.1, Some(p)),
+    }
+}
+/// a block as the system builds it: ANY mix of creation and update records, WITH OR WITHOUT parents
+pub open spec fn wf_delta(d: Delta) -> bool {
+    &&& (d.parents matches Some(ps) ==> forall|a: DeltaId| ps@.contains(a) ==> did_sys(a@) && a.0 < u32::MAX)
+    &&& (d.changes matches Some(cs) ==> forall|i: int| 0 <= i < cs@.len() ==> wf_change(change_view(#[trigger] cs@[i])))
+}
+/// `d` carries the same parents, info, packs and change records as `d0` (empty collections read back as absent)
+pub open spec fn same_block(d0: Delta, d: Delta) -> bool {
+    &&& forall|v: DidV| #[trigger] opt_has_view(d.parents, v) <==> opt_has_view(d0.parents, v)
+    &&& opt_jm(d.info) == opt_jm(d0.info)
+    &&& forall|s: Seq<char>| #[trigger] opt_sset_has(d.packs, s) <==> opt_sset_has(d0.packs, s)
+    &&& opt_changes_view(d.changes) == opt_changes_view(d0.changes)
+}
+pub proof fn lemma_decode_record(c: ChangeV)
+    requires wf_change(c),
+    ensures record_jv(c) is Arr, decode_rec(record_jv(c)->Arr_0) == c, rec_ok(record_jv(c)), rec_bounded(record_jv(c)),
+{
+    let r = record_jv(c)->Arr_0;
+    match c.2 {
+        None => { assert(r.len() == 2 && r[0] == JV::Str(c.0) && r[1] == JV::Str(c.1.1)); }
+        Some(p) => {
+            assume_rev_print_parse(p);
+            assert(r.len() == 3 && r[0] == JV::Str(c.0) && r[1] == JV::Str(rev_str(p)) && r[2] == JV::Str(c.1.1));
+        }
+    }
+}
+pub proof fn lemma_decode_all(cs: Seq<ChangeV>, n: int)
+    requires 0 <= n <= cs.len(), forall|i: int| 0 <= i < cs.len() ==> wf_change(#[trigger] cs[i]),
+    ensures decode_changes(records_jv(cs), n) == cs.subrange(0, n),
+    decreases n
+{
+    if n > 0 {
+        lemma_decode_all(cs, n - 1);
+        lemma_decode_record(cs[n - 1]);
+        assert(records_jv(cs)[n - 1] == record_jv(cs[n - 1]));
+        assert(cs.subrange(0, n) =~= cs.subrange(0, n - 1).push(cs[n - 1]));
+    } else {
+        assert(cs.subrange(0, 0) =~= Seq::<ChangeV>::empty());
+    }
+}
+pub proof fn lemma_parents_read_back(ps: Set<DeltaId>, arr: Seq<JV>)
+    requires p_enum(ps, arr), forall|a: DeltaId| ps.contains(a) ==> did_sys(a@),
+    ensures
+        forall|i: int| 0 <= i < arr.len() ==> p_entry(#[trigger] arr[i]) is Some,
+        forall|v: DidV| #[trigger] p_upto(arr, arr.len() as int, v) <==> has_view(ps, v),
+{
+    let ids = choose|ids: Seq<DeltaId>| is_p_enum(ps, ids, arr);
+    assert forall|i: int| 0 <= i < arr.len() implies p_entry(#[trigger] arr[i]) == Some(ids[i]@) by {
+        assert(ps.contains(ids[i]));
+        assume_did_print_parse(ids[i]@);
+    }
+    assert forall|v: DidV| #[trigger] p_upto(arr, arr.len() as int, v) <==> has_view(ps, v) by {
+        if p_upto(arr, arr.len() as int, v) {
+            let i = choose|i: int| 0 <= i < arr.len() && p_entry(#[trigger] arr[i]) == Some(v);
+            assert(ps.contains(ids[i]) && ids[i]@ == v);
+        }
+        if has_view(ps, v) {
+            let a = choose|a: DeltaId| ps.contains(a) && a@ == v;
+            let i = choose|i: int| 0 <= i < ids.len() && #[trigger] ids[i] == a;
+            assert(p_entry(arr[i]) == Some(v));
+        }
+    }
+}
+pub proof fn lemma_packs_read_back(ks: Set<Seq<char>>, arr: Seq<JV>)
+    requires k_enum(ks, arr),
+    ensures forall|s: Seq<char>| #[trigger] k_upto(arr, arr.len() as int, s) <==> ks.contains(s),
+{
+    assert forall|s: Seq<char>| #[trigger] k_upto(arr, arr.len() as int, s) <==> ks.contains(s) by {
+        if k_upto(arr, arr.len() as int, s) { let i = choose|i: int| 0 <= i < arr.len() && #[trigger] arr[i] == JV::Str(s); assert(ks.contains(arr[i]->Str_0)); }
+        if ks.contains(s) { let i = choose|i: int| 0 <= i < arr.len() && #[trigger] arr[i] == JV::Str(s); assert(arr[i] == JV::Str(s)); }
+    }
+}
+/// COMPLETENESS of the block reader on the writer's output (stated over the two contracts, under the EXPLICIT print/parse
+/// assumptions `assume_did_print_parse` / `assume_rev_print_parse`): if `raw` is the object `to_json` builds for a
+/// well-formed block `d0` — any mix of creation and update records, with or without parents — and the identifier `b` is
+/// consistent with `d0.parents`, then `load_raw_delta`'s precondition holds, it cannot fail (`loadable`, so its `Err` clause
+/// is excluded), and every result it can return carries the same parents, info, packs and change records.
+pub proof fn lemma_block_roundtrip(d0: Delta, raw: Map<Seq<char>, JV>, b: DidV, d: Delta)
+    requires
+        wf_delta(d0),
+        is_block_json(d0, raw),
+        index_consistent(b, d0.parents),
+    ensures
+        inputs_bounded(raw),
+        loadable(raw, b),
+        loaded(b, raw, d) ==> same_block(d0, d),
+{
+    lemma_field_names();
+    // parents
+    let g = |v: DidV| p_has(raw, v);
+    match d0.parents {
+        Some(ps) => {
+            let arr = raw[PARENTS_FIELD@]->Arr_0;
+            lemma_parents_read_back(ps@, arr);
+            assert(arr_of(raw, PARENTS_FIELD@) == Some(arr));
+            assert forall|v: DidV| #![trigger p_has(raw, v)] #![trigger has_view(ps@, v)] p_has(raw, v) <==> has_view(ps@, v) by { }
+            assert forall|v: DidV| #[trigger] p_has(raw, v) implies v.0 < u32::MAX by {
+                let a = choose|a: DeltaId| ps@.contains(a) && a@ == v;
+            }
+            lemma_index_rule_ext(b.0, |v: DidV| has_view(ps@, v), g);
+        }
+        None => {
+            assert(arr_of(raw, PARENTS_FIELD@) is None);
+            assert forall|v: DidV| !#[trigger] g(v) by { }
+        }
+    }
+    assert(idx_ok(raw, b));
+    // packs
+    if let Some(ks) = d0.packs {
+        let arr = raw[PACK_FIELD@]->Arr_0;
+        lemma_packs_read_back(sset(ks), arr);
+        assert(arr_of(raw, PACK_FIELD@) == Some(arr));
+    } else {
+        assert(arr_of(raw, PACK_FIELD@) is None);
+    }
+    // change records
+    if let Some(cs) = d0.changes {
+        let cvs = changes_view(cs@);
+        let arr = records_jv(cvs);
+        assert(arr_of(raw, CHANGESETS_FIELD@) == Some(arr));
+        assert forall|i: int| 0 <= i < cvs.len() implies wf_change(#[trigger] cvs[i]) by { assert(cvs[i] == change_view(cs@[i])); }
+        assert forall|i: int| 0 <= i < arr.len() implies rec_ok(#[trigger] arr[i]) && rec_bounded(arr[i]) by { lemma_decode_record(cvs[i]); }
+        lemma_decode_all(cvs, cvs.len() as int);
+        assert(cvs.subrange(0, cvs.len() as int) =~= cvs);
+        assert(c_decoded(raw) == cvs);
+    } else {
+        assert(arr_of(raw, CHANGESETS_FIELD@) is None);
+    }
+}
+/// the two contracts compose (verified exec witness): writing a well-formed block and reading it back under a consistent
+/// identifier succeeds and yields the same block
+pub fn block_roundtrip(m: &Melda, d0: &Delta, b_id: &DeltaId) -> (ret: Result<Delta, VxError>)
+    requires did_models(), wf_delta(*d0), index_consistent(b_id@, d0.parents),
+    ensures ret matches Ok(d) && same_block(*d0, d) && (d.id matches Some(x) && x@ == b_id@),
+{
+    let raw = d0.to_json();
+    let ghost o = jm(raw);
+    proof { lemma_block_roundtrip(*d0, o, b_id@, *d0); }
+    let r = m.load_raw_delta(b_id, raw);
+    proof { if r is Ok { lemma_block_roundtrip(*d0, o, b_id@, r->Ok_0); } }
+    r
 }
